@@ -30,11 +30,28 @@ pub fn bitenum(args: TokenStream1, input: TokenStream1) -> TokenStream1 {
 
     let input = parse_macro_input!(input as syn::ItemEnum);
     match bitenum::bitenum(config, &input) {
+        #[cfg(feature = "verif_hooks")]
+        Ok(stream) => {
+            verif_dump("bitenum", &input.ident.to_string(), &stream.to_string());
+            stream.into()
+        }
+        #[cfg(not(feature = "verif_hooks"))]
         Ok(stream) => stream.into(),
         Err(err) => {
             let error = err.into_compile_error();
             let input = bitenum::fallback_impl(&input);
             quote!(#input #error).into()
         }
+    }
+}
+
+/// Verification hook: writes the expansion of one macro invocation to
+/// `$BITBYBIT_VERIF_DUMP_DIR/<kind>.<name>.rs`. Compiled only with the `verif_hooks` feature.
+#[cfg(feature = "verif_hooks")]
+pub(crate) fn verif_dump(kind: &str, name: &str, text: &str) {
+    if let Ok(dir) = std::env::var("BITBYBIT_VERIF_DUMP_DIR") {
+        let _ = std::fs::create_dir_all(&dir);
+        let path = std::path::Path::new(&dir).join(format!("{}.{}.rs", kind, name));
+        let _ = std::fs::write(path, text);
     }
 }
